@@ -7,7 +7,9 @@ import (
 	"fmt"
 	"go/ast"
 	"go/token"
+	"sort"
 	"strconv"
+	"strings"
 )
 
 func c09IntLit(x ast.Expr) (int64, bool) {
@@ -145,58 +147,37 @@ func init() {
 		}
 		// the receive loop restores buf and oob to full capacity as its first two statements
 		// (every rejection path leaves the body with `continue`, so a restore anywhere else is
-		// skipped after a rejected datagram)
-		restores := false
-		ast.Inspect(fd.Body, func(n ast.Node) bool {
-			fs, ok := n.(*ast.ForStmt)
-			if !ok || restores {
-				return true
+		// skipped after a rejected datagram) — both listeners
+		for _, fn := range []struct{ name, def string }{
+			{"runIPServer", "ipServerRestoresBufAtLoopTop"},
+			{"runSCIONServer", "scionServerRestoresBufAtLoopTop"},
+		} {
+			if c09RestoresBufAtLoopTop(findFunc(files, fn.name)) {
+				out = append(out, fmt.Sprintf("def %s : Bool := true", fn.def))
+			} else {
+				out = append(out, fmt.Sprintf("def %s : Bool := false", fn.def))
+				broken("%s", "C09: "+fn.name+": the receive loop no longer restores buf/oob to full capacity as its first statements (a rejected datagram would leave the buffer shrunk)")
 			}
-			if fs.Init != nil || fs.Cond != nil || fs.Post != nil || len(fs.Body.List) < 3 {
-				return true
+		}
+		// per-iteration variables: each of these names is declared (`var X T` or `X := …`) lexically
+		// inside the body of the receive loop and nowhere else in the function, so none of them can
+		// carry a value from one datagram to the next (`authenticated` left true by the previous
+		// datagram would authenticate the next one; nts.DecodePacket appends into the `ntsreq` it is
+		// handed, so a hoisted one would carry cookies over).
+		for _, fn := range []struct {
+			name, def string
+			names     []string
+		}{
+			{"runIPServer", "ipServerDeclaresPerIteration",
+				[]string{"authenticated", "ntpreq", "ntsreq", "serverCookie"}},
+			{"runSCIONServer", "scionServerDeclaresPerIteration",
+				[]string{"authenticated", "ntpreq", "ntsAuthenticated", "ntsreq", "serverCookie"}},
+		} {
+			got, why := c09DeclaredPerIteration(findFunc(files, fn.name), fn.names)
+			out = append(out, fmt.Sprintf("def %s : List String := %s", fn.def, c09LeanList(got)))
+			if why != "" {
+				broken("%s", "C09: "+fn.name+": "+why)
 			}
-			isRestore := func(st ast.Stmt, name string) bool {
-				as, ok := st.(*ast.AssignStmt)
-				if !ok || as.Tok != token.ASSIGN || len(as.Lhs) != 1 || len(as.Rhs) != 1 {
-					return false
-				}
-				l, ok := as.Lhs[0].(*ast.Ident)
-				if !ok || l.Name != name {
-					return false
-				}
-				sl, ok := as.Rhs[0].(*ast.SliceExpr)
-				if !ok || sl.Low != nil || sl.Max != nil {
-					return false
-				}
-				x, ok := sl.X.(*ast.Ident)
-				if !ok || x.Name != name {
-					return false
-				}
-				call, ok := sl.High.(*ast.CallExpr)
-				if !ok || len(call.Args) != 1 {
-					return false
-				}
-				f, ok := call.Fun.(*ast.Ident)
-				a, ok2 := call.Args[0].(*ast.Ident)
-				return ok && ok2 && f.Name == "cap" && a.Name == name
-			}
-			if isRestore(fs.Body.List[0], "buf") && isRestore(fs.Body.List[1], "oob") {
-				// and the third statement is the read
-				if as, ok := fs.Body.List[2].(*ast.AssignStmt); ok && len(as.Rhs) == 1 {
-					if call, ok := as.Rhs[0].(*ast.CallExpr); ok {
-						if sel, ok := call.Fun.(*ast.SelectorExpr); ok && sel.Sel.Name == "ReadMsgUDPAddrPort" {
-							restores = true
-						}
-					}
-				}
-			}
-			return true
-		})
-		if restores {
-			out = append(out, "def ipServerRestoresBufAtLoopTop : Bool := true")
-		} else {
-			out = append(out, "def ipServerRestoresBufAtLoopTop : Bool := false")
-			broken("C09: runIPServer: the receive loop no longer restores buf/oob to full capacity as its first statements (a rejected datagram would leave the buffer shrunk)")
 		}
 		// per-datagram request state: the structs the decoders fill (`ntp.DecodePacket(&X, …)`,
 		// `nts.DecodePacket(&X, …)`, `nts.ProcessRequest(…, &X)`) and the server cookie assigned
@@ -212,7 +193,7 @@ func init() {
 				out = append(out, fmt.Sprintf("def %s : Bool := true", fn.def))
 			} else {
 				out = append(out, fmt.Sprintf("def %s : Bool := false", fn.def))
-				broken("C09: " + fn.name + ": " + why)
+				broken("%s", "C09: "+fn.name+": "+why)
 			}
 		}
 		return out
@@ -336,4 +317,186 @@ func c09RequestStateInLoop(fd *ast.FuncDecl) (bool, string) {
 		}
 	}
 	return true, ""
+}
+
+func c09LeanList(xs []string) string {
+	q := make([]string, len(xs))
+	for i, x := range xs {
+		q[i] = leanString(x)
+	}
+	return "[" + strings.Join(q, ", ") + "]"
+}
+
+// c09ReceiveLoop returns the receive loop of a listener function: the single outermost
+// `for { … }` without init/condition/post whose body contains the call
+// `conn.ReadMsgUDPAddrPort(…)`; nil if there is none or more than one.
+func c09ReceiveLoop(fd *ast.FuncDecl) *ast.ForStmt {
+	if fd == nil || fd.Body == nil {
+		return nil
+	}
+	hasRead := func(n ast.Node) bool {
+		found := false
+		ast.Inspect(n, func(m ast.Node) bool {
+			if call, ok := m.(*ast.CallExpr); ok && c09IsSel(call.Fun, "conn", "ReadMsgUDPAddrPort") {
+				found = true
+			}
+			return !found
+		})
+		return found
+	}
+	var loops []*ast.ForStmt
+	ast.Inspect(fd.Body, func(n ast.Node) bool {
+		if fs, ok := n.(*ast.ForStmt); ok && fs.Init == nil && fs.Cond == nil && fs.Post == nil && hasRead(fs.Body) {
+			loops = append(loops, fs)
+			return false // outermost only
+		}
+		return true
+	})
+	if len(loops) != 1 {
+		return nil
+	}
+	return loops[0]
+}
+
+// c09RestoresBufAtLoopTop: the first three statements of the receive loop body are
+// `buf = buf[:cap(buf)]`, `oob = oob[:cap(oob)]` and the assignment from
+// `conn.ReadMsgUDPAddrPort(buf, oob)`.
+func c09RestoresBufAtLoopTop(fd *ast.FuncDecl) bool {
+	loop := c09ReceiveLoop(fd)
+	if loop == nil || len(loop.Body.List) < 3 {
+		return false
+	}
+	isRestore := func(st ast.Stmt, name string) bool {
+		as, ok := st.(*ast.AssignStmt)
+		if !ok || as.Tok != token.ASSIGN || len(as.Lhs) != 1 || len(as.Rhs) != 1 {
+			return false
+		}
+		l, ok := as.Lhs[0].(*ast.Ident)
+		if !ok || l.Name != name {
+			return false
+		}
+		sl, ok := as.Rhs[0].(*ast.SliceExpr)
+		if !ok || sl.Low != nil || sl.Max != nil || sl.High == nil {
+			return false
+		}
+		x, ok := sl.X.(*ast.Ident)
+		if !ok || x.Name != name {
+			return false
+		}
+		call, ok := sl.High.(*ast.CallExpr)
+		if !ok || len(call.Args) != 1 {
+			return false
+		}
+		f, ok := call.Fun.(*ast.Ident)
+		a, ok2 := call.Args[0].(*ast.Ident)
+		return ok && ok2 && f.Name == "cap" && a.Name == name
+	}
+	if !isRestore(loop.Body.List[0], "buf") || !isRestore(loop.Body.List[1], "oob") {
+		return false
+	}
+	as, ok := loop.Body.List[2].(*ast.AssignStmt)
+	if !ok || len(as.Rhs) != 1 {
+		return false
+	}
+	call, ok := as.Rhs[0].(*ast.CallExpr)
+	if !ok || !c09IsSel(call.Fun, "conn", "ReadMsgUDPAddrPort") || len(call.Args) != 2 {
+		return false
+	}
+	b, ok := call.Args[0].(*ast.Ident)
+	o, ok2 := call.Args[1].(*ast.Ident)
+	return ok && ok2 && b.Name == "buf" && o.Name == "oob"
+}
+
+// c09DeclaredPerIteration returns, sorted, those of names that are declared per iteration of
+// the receive loop of fd: a declaration of the name (`var X T` statement or `X := …`) exists
+// lexically inside the loop body (function literals inside the body count as inside), and
+// nothing in the function outside the loop declares the name (parameters, named results,
+// `var`, `:=`, `range … :=`, parameters of function literals). The second result says what is
+// missing ("" if all names qualify).
+func c09DeclaredPerIteration(fd *ast.FuncDecl, names []string) ([]string, string) {
+	loop := c09ReceiveLoop(fd)
+	if loop == nil {
+		return nil, "the receive loop (the single outermost `for {…}` containing conn.ReadMsgUDPAddrPort) was not found"
+	}
+	inLoop := func(p token.Pos) bool { return loop.Body.Lbrace < p && p < loop.Body.Rbrace }
+	inside := map[string]bool{}  // var / := inside the loop body
+	outside := map[string]bool{} // any binding of the name outside the loop body
+	fields := func(fl *ast.FieldList) {
+		if fl == nil {
+			return
+		}
+		for _, f := range fl.List {
+			for _, id := range f.Names {
+				if !inLoop(id.Pos()) {
+					outside[id.Name] = true
+				}
+			}
+		}
+	}
+	fields(fd.Recv)
+	fields(fd.Type.Params)
+	fields(fd.Type.Results)
+	define := func(x ast.Expr, stmtDecl bool) {
+		id, ok := x.(*ast.Ident)
+		if !ok || id.Name == "_" {
+			return
+		}
+		if inLoop(id.Pos()) {
+			if stmtDecl {
+				inside[id.Name] = true
+			}
+		} else {
+			outside[id.Name] = true
+		}
+	}
+	ast.Inspect(fd.Body, func(n ast.Node) bool {
+		switch v := n.(type) {
+		case *ast.DeclStmt:
+			if gd, ok := v.Decl.(*ast.GenDecl); ok && gd.Tok == token.VAR {
+				for _, sp := range gd.Specs {
+					if vs, ok := sp.(*ast.ValueSpec); ok {
+						for _, id := range vs.Names {
+							define(id, true)
+						}
+					}
+				}
+			}
+		case *ast.AssignStmt:
+			if v.Tok == token.DEFINE {
+				for _, l := range v.Lhs {
+					define(l, true)
+				}
+			}
+		case *ast.RangeStmt:
+			if v.Tok == token.DEFINE {
+				if v.Key != nil {
+					define(v.Key, false)
+				}
+				if v.Value != nil {
+					define(v.Value, false)
+				}
+			}
+		case *ast.FuncLit:
+			fields(v.Type.Params)
+			fields(v.Type.Results)
+		}
+		return true
+	})
+	var got, missing []string
+	for _, name := range names {
+		switch {
+		case inside[name] && !outside[name]:
+			got = append(got, name)
+		case outside[name]:
+			missing = append(missing, fmt.Sprintf("%q is declared outside the receive loop", name))
+		default:
+			missing = append(missing, fmt.Sprintf("%q is not declared inside the receive loop body", name))
+		}
+	}
+	sort.Strings(got)
+	why := ""
+	if len(missing) > 0 {
+		why = strings.Join(missing, "; ") + " (a variable that outlives the iteration carries the previous datagram's value into the next)"
+	}
+	return got, why
 }
